@@ -442,3 +442,11 @@ class LazyVal(object):
 
 def force(ex, v):
     return v.force(ex) if isinstance(v, LazyVal) else v
+
+
+class SymVarArgs(object):
+    """f(*seq) with a symbolic-length sequence: the callee's *args is bound to
+    this list (a list, not a tuple: only length, indexing and iteration differ
+    in nothing the verified code uses)"""
+    def __init__(self, slist):
+        self.slist = slist
